@@ -36,11 +36,13 @@ Wss == {"", " ", "\n\t"}
 Trailers == {"", "x", "{\"b\":2}", "}"}
 Inputs == {[text |-> w1 \o v.t \o w2 \o tr, kind |-> v.k, lead |-> w1 # "", trail |-> tr # ""] : v \in Values, w1 \in Wss, w2 \in Wss, tr \in Trailers}
           \cup {NoInput}
+          \cup {[text |-> w, kind |-> "bad", lead |-> TRUE, trail |-> FALSE] : w \in Wss \ {""}}     \* white space only: not a JSON text (only the EMPTY input is the documented empty Map)
 Init2 == inp \in Inputs /\ s = <<>> /\ n = 0
 Spec2 == Init2 /\ [][UNCHANGED <<s, n, inp>>]_<<s, n, inp>>
 Emit2 == PrintT(ToJson([f |-> "jsonin", text |-> inp.text, kind |-> inp.kind,
                         accept |-> (inp.kind = "empty" \/ Accepts(inp.kind)), shape |-> IF inp.kind = "empty" THEN "empty" ELSE ResultShape(inp.kind)]))
 C(x) == <<x>>
-cChunks == {C("<"), C(">"), C("&"), C("\\"), C("\""), C("a"), C("^"), C("$"),
-            <<"\\", "u", "0", "0", "3", "c">>, <<"\\", "u", "0", "0", "3", "e">>, <<"\\", "u", "0", "0", "2", "6">>, <<"u", "0", "0", "3", "c">>}
+cChunks == {C("<"), C(">"), C("&"), C("\\"), C("\""), C("a"), C("^"), C("$"), C("~"),       \* (^ U+0001, $ newline, ~ a two-byte character)
+            <<"\\", "u", "0", "0", "3", "c">>, <<"\\", "u", "0", "0", "3", "e">>, <<"\\", "u", "0", "0", "2", "6">>, <<"u", "0", "0", "3", "c">>,
+            <<"\\", "u", "2", "0", "2", "8">>}      \* (the six characters, not U+2028: encoding/json escapes the character itself in every mode)
 =============================================================================
